@@ -28,11 +28,13 @@ def named(t, names):
 
 
 class DTrait:
-    def __init__(self, name, assocs=("G",), arity=0, unsized_assoc=False):
+    def __init__(self, name, assocs=("G",), arity=0, unsized_assoc=False, lifetimes=0, consts=0):
         self.name, self.assocs, self.arity, self.unsized_assoc = name, list(assocs), arity, unsized_assoc
+        self.lifetimes, self.consts = lifetimes, consts
 
     def decl(self):
-        g = "<" + ", ".join(f"P{i}" for i in range(self.arity)) + ">" if self.arity else ""
+        gs = [f"'l{i}" for i in range(self.lifetimes)] + [f"P{i}" for i in range(self.arity)] + [f"const C{i}: usize" for i in range(self.consts)]
+        g = "<" + ", ".join(gs) + ">" if gs else ""
         items = " ".join(f"type {a}{': ?Sized' if self.unsized_assoc else ''};" for a in self.assocs)
         return f"pub trait {self.name}{g} {{ {items} }}"
 
@@ -241,7 +243,8 @@ class Plan:
             d = self.dtraits[dt]
             ta = "<" + ", ".join(dargs) + ">" if dargs else ""
             body = " ".join(f"type {a} = {v};" for a, v in assocs.items())
-            out.append(f"impl {d.name}{ta} for {ty} {{ {body} }}")
+            lts = sorted({a for a in dargs if a.startswith("'") and a != "'static"})
+            out.append(f"impl{'<' + ', '.join(lts) + '>' if lts else ''} {d.name}{ta} for {ty} {{ {body} }}")
         for plain, ty in self.plain:
             if plain == "Plain0" and (ty in ("u8", "u16", "String") or ty.startswith("(")):
                 continue
@@ -567,7 +570,8 @@ class PlanGen:
                 bounded = self.pick(NEST[:4])(("tp", p))
             else:
                 bounded = ("tp", p)
-            dargs = [leaf(self.pick(["u8", "i32"])) for _ in range(d.arity)]
+            dargs = [("lt_", f"'x{len(keys)}") for _ in range(d.lifetimes)] + [leaf(self.pick(["u8", "i32"])) for _ in range(d.arity)] + \
+                [("cst_", ("lit", self.pick(["1", "2"]))) for _ in range(d.consts)]
             sig = (repr(bounded), dt, repr(dargs), assoc)
             if sig in used:
                 continue
@@ -591,7 +595,7 @@ class PlanGen:
                 if wildcard and members and r.random() < 0.12:
                     row.append(None)
                     continue
-                pl, extra = self.payload(np_, generic_payloads)
+                pl, extra = self.payload(np_, generic_payloads and not plan.dtraits[k.dt].lifetimes)
                 np_ += extra
                 row.append(pl)
             if any(_rows_unify(row, other) for other in rows):
@@ -602,6 +606,12 @@ class PlanGen:
             if r.random() < 0.4:
                 r.shuffle(m.decl_order)
             m.names = self.names(np_)
+            # bound-only lifetimes used as arguments of dispatch traits: declared by every member, in its own order and spelling
+            lts = [a[1] for k in keys for a in k.dargs if a[0] == "lt_"]
+            if lts:
+                m.lifetimes = list(lts)
+                if r.random() < 0.5:
+                    m.lifetimes.reverse()
             m.inline = {ki: r.random() < 0.6 for ki in range(len(keys))}
             if extra_bounds and r.random() < 0.3:
                 m.extra.append((("tp", r.randrange(nparams)), self.pick(["Plain0", "Plain1"])))
@@ -660,6 +670,7 @@ class PlanGen:
 
     def add_world(self, plan, dt, dargs, ty, assoc, val):
         d = plan.dtraits[dt]
+        dargs = ["'w" if (a.startswith("'") and a != "'static") else a for a in dargs]
         for w in plan.world:
             if w[0] == dt and w[1] == dargs and w[2] == ty:
                 w[3].setdefault(assoc, val)
@@ -691,6 +702,10 @@ class PlanGen:
             plan.dtraits.append(DTrait("D1", assocs=("G", "H")))
         if ndt >= 3:
             plan.dtraits.append(DTrait("D2", assocs=("G",), arity=1))
+        if r.random() < 0.15:
+            plan.dtraits.append(DTrait("DL", assocs=("G",), lifetimes=1))
+        if r.random() < 0.25:
+            plan.dtraits.append(DTrait("DC", assocs=("G",), consts=1))
         items = [("const", "NAME", False)]
         if r.random() < 0.7:
             items.append(("fn", "tag", False))
@@ -740,7 +755,7 @@ class PlanGen:
             fams = [f for f in plan.families if f.members]
             f = self.pick(fams)
             a = self.pick(f.members)
-            mode_ = mode or self.pick(["equal", "wild", "general", "nested-equal", "inner", "equal", "wild", "nested-other-key", "duplicate"])
+            mode_ = mode or self.pick(["equal", "wild", "general", "nested-equal", "inner", "equal", "wild", "nested-other-key", "duplicate", "other-key", "other-key"])
             b = copy.deepcopy(a)
             b.names = self.names(b.nparams + 1)
             b.overrides = set()
@@ -790,12 +805,32 @@ class PlanGen:
                     if ki == 0:
                         pl = leaf(self.pick(other)) if other else pl
                     b.custom_bounds.append((k.bounded, k.dt, k.dargs, k.assoc, pl))
+            elif mode_ == "other-key":
+                # same header, but b dispatches on another key (another trait, or the same trait with another const argument):
+                # no key is shared, a type implementing both satisfies both blocks
+                if a.theta or any(k.bounded[0] != "tp" for k in f.keys):
+                    continue
+                k0 = f.keys[0]
+                d0 = plan.dtraits[k0.dt]
+                b.nparams = f.nparams
+                b.decl_order = list(range(f.nparams))
+                b.row = [leaf(self.pick(MARKERS)) for _ in f.keys]
+                if any(params_of(x) for x in a.row if x is not None):
+                    continue
+                if d0.consts and r.random() < 0.7:
+                    nd = [x if x[0] != "cst_" else ("cst_", ("lit", "3")) for x in k0.dargs]
+                    b.custom_bounds = [(k0.bounded, k0.dt, nd, k0.assoc, leaf(self.pick(MARKERS)))]
+                else:
+                    odt = [i for i in range(len(plan.dtraits)) if i != k0.dt and plan.dtraits[i].arity == 0 and not plan.dtraits[i].lifetimes and not plan.dtraits[i].consts]
+                    if not odt:
+                        continue
+                    b.custom_bounds = [(k0.bounded, odt[0], [], plan.dtraits[odt[0]].assocs[0], leaf(self.pick(MARKERS)))]
             elif mode_ == "nested-other-key":
                 if a.theta or len(plan.dtraits) < 2 or any(k.bounded[0] != "tp" for k in f.keys):
                     continue
                 p0 = f.keys[0].bounded[1]
                 b.theta = {p0: ("ty", self.pick(NEST[:4])(("tp", p0)))}
-                odt = [i for i in range(len(plan.dtraits)) if i != f.keys[0].dt and plan.dtraits[i].arity == 0]
+                odt = [i for i in range(len(plan.dtraits)) if i != f.keys[0].dt and plan.dtraits[i].arity == 0 and not plan.dtraits[i].lifetimes and not plan.dtraits[i].consts]
                 if not odt:
                     continue
                 b.custom_bounds = [(("tp", p0), odt[0], [], plan.dtraits[odt[0]].assocs[0], leaf(self.pick(MARKERS)))]
@@ -808,7 +843,7 @@ class PlanGen:
             # witness: an instance of b that also satisfies a
             mi_b = f.members.index(b)
             mi_a = f.members.index(a)
-            if mode_ in ("inner", "nested-other-key"):
+            if mode_ in ("inner", "nested-other-key", "other-key"):
                 q = self.witness(plan, fi, mi_b)
                 # make the same ground type satisfy a as well
                 rho_ty = q[0]
@@ -846,6 +881,112 @@ class PlanGen:
         for ki, k in enumerate(f.keys):
             if k.bounded[0] == "tp" and k.bounded[1] in binding and a.row[ki] is not None and not params_of(a.row[ki]):
                 self.add_world(plan, k.dt, [pr(x) for x in k.dargs], binding[k.bounded[1]], k.assoc, pr(a.row[ki]))
+
+    # ------------------------------------------------------------------ bound-only lifetimes as dispatch-trait arguments (C06)
+    def lifetime_keys_plan(self):
+        r = self.r
+        plan = Plan()
+        plan.dtraits = [DTrait("DL", assocs=("G",), lifetimes=1), DTrait("D0")]
+        plan.items = [("const", "NAME", False)] + ([("fn", "tag", False)] if r.random() < 0.5 else [])
+        nparams, self_ty = self.pick([(2, ("tuple", [("tp", 0), ("tp", 1)])), (2, ("ctor", "W2", [("aty", ("tp", 0)), ("aty", ("tp", 1))]))])
+        keys = [Key(("tp", 0), 0, [("lt_", "'x0")], "G"), Key(("tp", 1), 0, [("lt_", "'x1")], "G")]
+        members, rows = [], []
+        tries = 0
+        while len(members) < self.pick([2, 3]) and tries < 20:
+            tries += 1
+            row = [leaf(self.pick(MARKERS)), leaf(self.pick(MARKERS))]
+            if any(_rows_unify(row, o) for o in rows):
+                continue
+            rows.append(row)
+            m = Member({}, row, nparams)
+            m.names = self.names(nparams)
+            m.inline = {0: True, 1: True}
+            m.lifetimes = ["'x0", "'x1"]
+            members.append(m)
+        plan.families = [Family(self_ty, [], nparams, keys, members)]
+        plan.notes["keep_plain"] = True
+        plan.notes["bound_only_lifetimes"] = True
+        self.populate(plan)
+        return plan
+
+    # ------------------------------------------------------------------ nested header lattices: chains and diamonds (C02, C05, C11)
+    def lattice(self):
+        """several bucket headers over pairs that generalise one another: (T,U) ⊒ (Vec<T>,U), (T,Vec<U>) ⊒ (Vec<T>,Vec<U>).
+        style 'merged': one family keyed on the whole header, nested members through θ (tests/supersets_2.rs);
+        style 'separate': every header is its own family with its own keys; rustc accepts the overlapping main impls
+        because the dispatch traits are not implemented for the overlapping instances."""
+        r = self.r
+        plan = Plan()
+        plan.dtraits = [DTrait("D0")] + ([DTrait("D1", assocs=("G", "H"))] if r.random() < 0.4 else [])
+        plan.items = [("const", "NAME", False)] + ([("fn", "dtag", True)] if r.random() < 0.4 else [])
+        wrap = self.pick(["Vec", "Option", "W1"])
+        V = lambda t: ("ctor", wrap, [("aty", t)])
+        T0, T1 = ("tp", 0), ("tp", 1)
+        shapes = {"TU": ("tuple", [T0, T1]), "VU": ("tuple", [V(T0), T1]), "TV": ("tuple", [T0, V(T1)]), "VV": ("tuple", [V(T0), V(T1)]),
+                  "WU": ("tuple", [V(V(T0)), T1])}
+        thetas = {"TU": {}, "VU": {0: ("ty", V(T0))}, "TV": {1: ("ty", V(T1))}, "VV": {0: ("ty", V(T0)), 1: ("ty", V(T1))},
+                  "WU": {0: ("ty", V(V(T0)))}}
+        subset = self.pick([["TV", "VU", "VV"], ["TU", "VU", "TV", "VV"], ["TV", "VU"], ["TU", "VV"], ["TU", "VU", "VV"],
+                            ["VU", "TV", "VV", "TU"], ["TU", "VU", "WU"], ["VV", "TV", "VU"], ["VU", "WU", "TV", "VV"]])
+        style = self.pick(["merged", "separate", "separate"])
+        plan.notes["lattice"] = (style, subset)
+        if style == "merged":
+            top = "TU" if "TU" in subset else subset[0]
+            # family header = the most general shape present; every other shape must be an instance of it
+            if top != "TU":
+                subset = [x for x in subset if x == top or (top in ("VU", "TV") and x == "VV") or (top == "VU" and x == "WU")]
+            dt = r.randrange(len(plan.dtraits))
+            key = Key(shapes[top], dt, [], self.pick(plan.dtraits[dt].assocs))
+            members = []
+            used = []
+            for sh in subset:
+                for _ in range(self.pick([1, 1, 2])):
+                    cand = [m_ for m_ in MARKERS if m_ not in used]
+                    if not cand:
+                        break
+                    mk = self.pick(cand)
+                    used.append(mk)
+                    th = dict(thetas[sh])
+                    if top != "TU":
+                        # θ relative to the family header `top`
+                        th = {k: v for k, v in th.items() if not (k in thetas[top])}
+                        if sh == "WU" and top == "VU":
+                            th = {0: ("ty", V(T0))}
+                    m = Member(th, [leaf(mk)], 2)
+                    m.names = self.names(2)
+                    m.inline = {0: False}
+                    members.append(m)
+            r.shuffle(members)
+            plan.families = [Family(shapes[top], [], 2, [key], members)]
+        else:
+            for sh in subset:
+                hdr = shapes[sh]
+                # keys on bare parameters (or on the pair of inner parameters for the doubly nested shape)
+                kb = self.pick([T0, T1]) if sh != "VV" else self.pick([("tuple", [T0, T1]), T0, T1])
+                if sh == "TV":
+                    kb = T0 if r.random() < 0.7 else T1
+                if sh == "VU":
+                    kb = T1 if r.random() < 0.7 else T0
+                dt = r.randrange(len(plan.dtraits))
+                key = Key(kb, dt, [], self.pick(plan.dtraits[dt].assocs))
+                members = []
+                used = []
+                for _ in range(self.pick([1, 2, 2])):
+                    cand = [m_ for m_ in MARKERS if m_ not in used]
+                    mk = self.pick(cand)
+                    used.append(mk)
+                    m = Member({}, [leaf(mk)], 2)
+                    m.names = self.names(2)
+                    m.decl_order = [0, 1] if r.random() < 0.6 else [1, 0]
+                    m.inline = {0: kb[0] == "tp" and r.random() < 0.6}
+                    has_dflt = [n for _, n, d in plan.items if d]
+                    m.overrides = {n for n in has_dflt if r.random() < 0.5}
+                    members.append(m)
+                plan.families.append(Family(hdr, [], 2, [key], members))
+            r.shuffle(plan.families)
+        plan.notes["keep_plain"] = True     # fresh local leaves only: no accidental impls for constructed types
+        self.populate(plan)
+        return plan
 
     # ------------------------------------------------------------------ trait arguments (C16)
     def trait_args_plan(self):
@@ -992,7 +1133,7 @@ class PlanGen:
             if use_d7 and self_ty[0] == "ctor" and self_ty[1] == "Box" and p == 0:
                 bounded = self_ty          # D7 shape: the key bounds Box<T>, T itself is only relaxed
             keys.append(Key(bounded, dt, [], self.pick(plan.dtraits[dt].assocs)))
-            if r.random() < 0.6:
+            if r.random() < 0.4:
                 break
         members, rows = [], []
         tries = 0
@@ -1000,6 +1141,8 @@ class PlanGen:
         while len(members) < want and tries < 30:
             tries += 1
             row = [leaf(self.pick(MARKERS)) for _ in keys]
+            if len(keys) > 1 and members and r.random() < 0.35:
+                row[r.randrange(1, len(keys))] = None      # wildcard: bound without binding
             if any(_rows_unify(row, o) for o in rows):
                 continue
             rows.append(row)
@@ -1011,6 +1154,7 @@ class PlanGen:
             members.append(m)
         if not any(m.unsized for m in members):
             members[0].unsized = {0}
+        r.shuffle(members)
         plan.families = [Family(self_ty, targs, nparams, keys, members)]
         plan.world, plan.plain, plan.probes = [], [], []
         for mi, m in enumerate(members):
